@@ -255,6 +255,45 @@ pub fn run(req: &mut J) -> Result<J, String> {
         Err(e) => json!({"err": rel_str(&root, &format!("{e}"))}),
     };
     obs.insert("inventory".into(), invj);
+    // repetition / order independence on this one instance (C12): render nodes again in
+    // shuffled orders, interleaved with whole-inventory renders, and compare with the first results
+    if let Some(rounds) = req.get("repeat").and_then(J::as_u64) {
+        let mut state: u64 = req.get("repeat_seed").and_then(J::as_u64).unwrap_or(1) | 1;
+        let mut next = || {
+            state ^= state << 13;
+            state ^= state >> 7;
+            state ^= state << 17;
+            state
+        };
+        let mut unstable: Vec<String> = vec![];
+        for round in 0..rounds {
+            let mut order = names.clone();
+            for i in (1..order.len()).rev() {
+                let j = (next() % (i as u64 + 1)) as usize;
+                order.swap(i, j);
+            }
+            for (k, n) in order.iter().enumerate() {
+                let j = match r.render_node(n) {
+                    Ok(info) => json!({"ok": nodeinfo_json(&root, &info)}),
+                    Err(e) => json!({"err": rel_str(&root, &format!("{e}"))}),
+                };
+                if singles.get(n) != Some(&j) {
+                    unstable.push(format!("round {round}: node {n} rendered differently on repetition"));
+                }
+                if k == order.len() / 2 {
+                    if let Ok(inv2) = r.render_inventory() {
+                        let (_, _, nodes2) = inv2.verif_parts();
+                        for (k2, v2) in nodes2 {
+                            if singles.get(k2) != Some(&json!({"ok": nodeinfo_json(&root, v2)})) {
+                                unstable.push(format!("round {round}: inventory entry {k2} differs from the single render"));
+                            }
+                        }
+                    }
+                }
+            }
+        }
+        obs.insert("repeat".into(), json!({"stable": unstable.is_empty(), "diffs": unstable.into_iter().take(3).collect::<Vec<_>>()}));
+    }
     // unknown node
     if let Err(e) = r.render_node("no-such-node-xyz") {
         obs.insert("unknown".into(), json!({"err": format!("{e}")}));
